@@ -184,7 +184,7 @@ empty or starts with one, the replacement is appended -/
 def P.replaceExtension (p : P) (replacement : Str) : Str :=
   let base : Str :=
     match p.findExtension with
-    | some (s, some k) =>
+    | some (_, some k) =>
       (match p.kind with
        | .filename => p.name.take k
        | _ => match p.cmpts.getLast? with
